@@ -53,7 +53,8 @@ pub fn emit_limit<W: Write>(out: &mut W, id: &str, s: &Sparse, moov_sizes: &[u64
 }
 
 /// cumulative_mdat_box_size lattice; `eof_mdat` = offset of the until-EOF mdat header, if the input has one
-pub fn emit_cum<W: Write>(out: &mut W, id: &str, s: &Sparse, eof_mdat: Option<u64>, exact: u32, kind: Kind) {
+pub fn emit_cum<W: Write>(out: &mut W, id: &str, s: &Sparse, eof_mdats: &[u64], exact: u32, kind: Kind) {
+    let eof_mdat = eof_mdats.first().copied();
     let mut ts: Vec<Option<u32>> = vec![None];
     for t in [0u32, 1, 2, 7, 8, 9, exact.saturating_sub(1), exact, exact + 1, exact + 40, 100_000, u32::MAX] {
         ts.push(Some(t));
@@ -62,11 +63,18 @@ pub fn emit_cum<W: Write>(out: &mut W, id: &str, s: &Sparse, eof_mdat: Option<u6
     for t in &ts {
         let with_cfg = run_mp4(s, &Cfg { max: 1 << 30, cum: *t }, kind);
         // the same input with the size field of the until-EOF mdat rewritten to t, cumulative size unset
+        // (every until-EOF mdat: the option applies to each one the scan meets)
+        // With several such boxes the comparison is only meaningful for the size that keeps the scan aligned (`exact`):
+        // for any other size the later headers are reached off by some bytes, as payload, and what was rewritten there
+        // is no longer a size field - those settings are compared with the model only.
         let rewritten = match (t, eof_mdat) {
-            (Some(t), Some(off)) => {
+            (Some(t), Some(_)) if eof_mdats.len() > 1 && *t != exact => None,
+            (Some(t), Some(_)) => {
                 let mut s2 = s.clone();
-                for (i, b) in t.to_be_bytes().iter().enumerate() {
-                    s2.set_byte(off + i as u64, *b);
+                for off in eof_mdats {
+                    for (i, b) in t.to_be_bytes().iter().enumerate() {
+                        s2.set_byte(off + i as u64, *b);
+                    }
                 }
                 Some(run_mp4(&s2, &Cfg { max: 1 << 30, cum: None }, kind))
             }
@@ -81,10 +89,11 @@ pub fn emit_cum<W: Write>(out: &mut W, id: &str, s: &Sparse, eof_mdat: Option<u6
     }
     writeln!(
         out,
-        "C14 id={id} opt=cum {} kind={} eofmdat={} results={}",
+        "C14 id={id} opt=cum {} kind={} eofmdat={} eofall={} results={}",
         s.line(),
         kind.name(),
         eof_mdat.map(|x| x.to_string()).unwrap_or("none".into()),
+        if eof_mdats.is_empty() { "none".to_string() } else { eof_mdats.iter().map(|x| x.to_string()).collect::<Vec<_>>().join(".") },
         rs.join(";")
     )
     .unwrap();
@@ -108,8 +117,12 @@ pub fn replay<W: Write>(line: &str, out: &mut W) {
             emit_limit(out, &id, &s, &sizes, kind)
         }
         Some("cum") => {
-            let eof = match get("eofmdat").as_deref() { Some("none") | None => None, Some(x) => x.parse().ok() };
-            emit_cum(out, &id, &s, eof, 20, kind)
+            let eof: Vec<u64> = match get("eofall").as_deref() {
+                Some("none") => vec![],
+                Some(x) => x.split('.').filter_map(|t| t.parse().ok()).collect(),
+                None => match get("eofmdat").as_deref() { Some("none") | None => vec![], Some(x) => x.parse().ok().into_iter().collect() },
+            };
+            emit_cum(out, &id, &s, &eof, 20, kind)
         }
         Some("unknown") => emit_unknown(out, &id, &s, kind),
         _ => panic!("bad replay line"),
@@ -186,16 +199,21 @@ pub fn run<W: Write>(opts: &Opts, out: &mut W) {
                 let payload = r.bytes(plen);
                 let exact = 8 + plen as u32;
                 let tail = bx(b"free", &[0; 3], Enc::S32);
-                let (bytes, eof): (Vec<u8>, Option<u64>) = match r.below(6) {
-                    0 => ([ftyp.clone(), moov.clone(), bx(b"mdat", &payload, Enc::Eof)].concat(), Some((ftyp.len() + moov.len()) as u64)),
-                    1 => ([ftyp.clone(), bx(b"mdat", &payload, Enc::Eof), moov.clone()].concat(), Some(ftyp.len() as u64)),
-                    2 => ([ftyp.clone(), bx(b"mdat", &payload, Enc::Eof), tail.clone(), moov.clone()].concat(), Some(ftyp.len() as u64)),
-                    3 => ([ftyp.clone(), bx(b"mdat", &payload, Enc::S32), moov.clone()].concat(), None),
-                    4 => ([ftyp.clone(), moov.clone(), bx(b"mdat", &payload, Enc::S64)].concat(), None),
+                let m1 = bx(b"mdat", &payload, Enc::Eof);
+                let (bytes, eof): (Vec<u8>, Vec<u64>) = match r.below(8) {
+                    0 => ([ftyp.clone(), moov.clone(), m1.clone()].concat(), vec![(ftyp.len() + moov.len()) as u64]),
+                    1 => ([ftyp.clone(), m1.clone(), moov.clone()].concat(), vec![ftyp.len() as u64]),
+                    2 => ([ftyp.clone(), m1.clone(), tail.clone(), moov.clone()].concat(), vec![ftyp.len() as u64]),
+                    3 => ([ftyp.clone(), bx(b"mdat", &payload, Enc::S32), moov.clone()].concat(), vec![]),
+                    4 => ([ftyp.clone(), moov.clone(), bx(b"mdat", &payload, Enc::S64)].concat(), vec![]),
+                    // several until-EOF mdat boxes (each is as long as the option says): the option applies to every one
+                    5 => ([ftyp.clone(), m1.clone(), m1.clone(), moov.clone()].concat(), vec![ftyp.len() as u64, (ftyp.len() + m1.len()) as u64]),
+                    6 => ([ftyp.clone(), m1.clone(), tail.clone(), m1.clone(), m1.clone(), moov.clone()].concat(),
+                          vec![ftyp.len() as u64, (ftyp.len() + m1.len() + tail.len()) as u64, (ftyp.len() + 2 * m1.len() + tail.len()) as u64]),
                     // an until-EOF box that is not an mdat: the option must not touch it
-                    _ => ([ftyp.clone(), bx(b"mdat", &payload, Enc::S32), bx(b"moov", &moov[8..], Enc::Eof)].concat(), None),
+                    _ => ([ftyp.clone(), bx(b"mdat", &payload, Enc::S32), bx(b"moov", &moov[8..], Enc::Eof)].concat(), vec![]),
                 };
-                emit_cum(out, &format!("cum-{i}"), &Sparse::from_bytes(&bytes), eof, exact, kind);
+                emit_cum(out, &format!("cum-{i}"), &Sparse::from_bytes(&bytes), &eof, exact, kind);
             }
             _ => {}
         }
